@@ -214,7 +214,7 @@ def pipeline_shape(v, src):
             return False, desc, 'stream of unrecognised kind %s' % type(v).__name__
 
 
-def verify_pipeline(run, tier):
+def verify_pipeline(run, tier, root='C06'):
     """every listing of PyKdebugParser is a chain of lazy element-wise stages (filter / map / one-pass generators) over
     KdBufParser.parse: together with M2 this carries the per-function prefix results to events, traces, lines"""
     from checks import c13
@@ -224,7 +224,7 @@ def verify_pipeline(run, tier):
     c13.install_contracts(sess, holder)
     fqc = 'pykdebugparser.pykdebugparser:PyKdebugParser'
     for meth in STREAM_METHODS:
-        prefix = 'C06/pipeline/%s' % meth
+        prefix = '%s/pipeline/%s' % (root, meth)
         result = {}
 
         def thunk(ctx, meth=meth):
@@ -244,7 +244,7 @@ def verify_pipeline(run, tier):
         bad = [(d, w) for ok, d, w in result.get('shapes', []) if not ok]
         raised = [p for p in prs if p.outcome == 'raise']
         if not result.get('shapes'):
-            run.engine_error('C06 pipeline %s: no path explored' % meth)
+            run.engine_error('%s pipeline %s: no path explored' % (root, meth))
         elif bad or raised:
             why = bad[0][1] if bad else '%s raised' % meth
             # an unrecognised shape is not a refutation: undecided unless the native sweep finds a failing dump
